@@ -5,7 +5,9 @@ Model: coq/theories/Archive/{Hof,Pareto,Keeper}.v  (Keeper.check_case = [agree; 
 
 A case is one whole update sequence: target configuration, pool of individuals, populations as
 index lists into the pool, and what was observed on the real object after every update."""
+import copy
 import itertools
+import pickle
 from operator import eq as op_eq
 
 from common import c_Q, c_bool, c_list, c_nat, c_opt
@@ -55,11 +57,47 @@ def is_keeper_target(t):
 
 
 # similarity functions a user may construct the containers with
+def same_structure(a, b):
+    return a.graph == b.graph
+
+
+def never_similar(a, b):
+    return False
+
+
+def always_similar(a, b):
+    return True
+
+
+def zero_metric(graph):
+    return 0.0
+
+
+class ExtendedObjective(Objective):
+    """a user subclass that bolts one more criterion on the base objective by extending `metrics`"""
+
+    @property
+    def metrics(self):
+        return [*super().metrics, ('extra', zero_metric)]
+
+
+def make_objective(nq, nc, multi, subclass=False):
+    """nq quality + nc complexity metrics; with subclass=True the last complexity criterion comes
+    from the overridden `metrics` property instead of the constructor arguments"""
+    cls = Objective
+    if subclass and nc >= 1:
+        cls, nc = ExtendedObjective, nc - 1
+    return cls(quality_metrics={'q%d' % i: zero_metric for i in range(nq)},
+               complexity_metrics={'c%d' % i: zero_metric for i in range(nc)},
+               is_multi_objective=multi)
+
+
+# module-level functions: the containers and keepers must survive pickling
 SIMILAR = {'uid': op_eq,                                   # the containers' default (Individual.__eq__)
            'same': _individuals_same,                      # the keeper's default
-           'graph': lambda a, b: a.graph == b.graph,       # genotype only: "same structure", no fitness
-           'never': lambda a, b: False,
-           'always': lambda a, b: True}
+           'graph': same_structure,                        # genotype only: "same structure", no fitness
+           'never': never_similar,
+           'always': always_similar}
 COQ_SIM = {'uid': 'SimUid', 'same': 'SimSame', 'graph': 'SimGraph', 'never': 'SimNever', 'always': 'SimAlways'}
 
 
@@ -79,7 +117,7 @@ def make_individual(spec, multi, uid=None):
     return ind
 
 
-def make_target(t):
+def make_target(t, subclass=False):
     if t[0] == 'hof':
         return HallOfFame(maxsize=t[1])
     if t[0] == 'pareto':
@@ -88,15 +126,9 @@ def make_target(t):
         return HallOfFame(maxsize=t[2], similar=SIMILAR[t[1]])
     if t[0] == 'keepersim':
         _, sim, k, nq, nc = t
-        objective = Objective(quality_metrics={'q%d' % i: (lambda g: 0.0) for i in range(nq)},
-                              complexity_metrics={'c%d' % i: (lambda g: 0.0) for i in range(nc)},
-                              is_multi_objective=True)
-        return GenerationKeeper(objective, keep_n_best=k, similarity_criteria=SIMILAR[sim])
+        return GenerationKeeper(make_objective(nq, nc, True, subclass), keep_n_best=k, similarity_criteria=SIMILAR[sim])
     _, multi, k, nq, nc = t
-    objective = Objective(quality_metrics={'q%d' % i: (lambda g: 0.0) for i in range(nq)},
-                          complexity_metrics={'c%d' % i: (lambda g: 0.0) for i in range(nc)},
-                          is_multi_objective=multi)
-    return GenerationKeeper(objective, keep_n_best=k)
+    return GenerationKeeper(make_objective(nq, nc, multi, subclass), keep_n_best=k)
 
 
 def run_impl(case):
@@ -104,8 +136,9 @@ def run_impl(case):
     sequence stops at the first exception)"""
     t = tuple(case['target'])
     multi = is_multi_target(t)
-    obj = make_target(t)
+    obj = make_target(t, subclass=bool(case.get('subclass')))
     archive = obj.archive if is_keeper_target(t) else obj
+    copies = {int(n): kind for n, kind in case.get('copies', [])}   # after update n: continue on a copy
     objs, canon = {}, {}
     fresh = set(tuple(x) for x in case.get('fresh_copies', []))   # (update no, position): new object, same uid
     obs = []
@@ -137,6 +170,11 @@ def run_impl(case):
         obs.append(o)
         if raised:
             break
+        if n in copies:
+            # the archive / keeper went through pickle or deepcopy (a checkpoint, a worker process):
+            # the copy must go on exactly as the original would have
+            obj = pickle.loads(pickle.dumps(obj)) if copies[n] == 'pickle' else copy.deepcopy(obj)
+            archive = obj.archive if is_keeper_target(t) else obj
     return obs
 
 
@@ -272,10 +310,22 @@ def configs(ctx):
 
 def exhaustive_cases(ctx, scope, cfgs):
     U, P, N = scope
+    n_case = 0
     for target, kinds in cfgs:
         for pool_kinds, pops in enum_sequences(U, P, N, len(kinds)):
             pool = [dict(kinds[kd], uid=i + 1) for i, kd in enumerate(pool_kinds)]
-            yield {'target': list(target), 'pool': pool, 'pops': pops}
+            case = {'target': list(target), 'pool': pool, 'pops': pops}
+            # half of the sequences continue on a pickled / deep-copied archive after the first (and, for
+            # the longer ones, the second) update; keepers with a complexity metric are built from an
+            # Objective subclass that supplies its last criterion for every other sequence
+            n_case += 1
+            if n_case % 4 == 1:
+                case['copies'] = [[0, 'pickle']] + ([[1, 'deepcopy']] if len(pops) > 2 else [])
+            elif n_case % 4 == 2:
+                case['copies'] = [[0, 'deepcopy']] + ([[1, 'pickle']] if len(pops) > 2 else [])
+            if target[0] in ('keeper', 'keepersim') and target[-1] >= 1 and n_case % 2 == 0:
+                case['subclass'] = True
+            yield case
 
 
 def random_case(ctx):
@@ -326,7 +376,12 @@ def random_case(ctx):
         for pos in range(size):
             if r.random() < 0.1:
                 fresh.append([n, pos])
-    return {'target': list(target), 'pool': pool, 'pops': pops, 'fresh_copies': fresh}
+    case = {'target': list(target), 'pool': pool, 'pops': pops, 'fresh_copies': fresh}
+    if r.random() < 0.5:
+        case['copies'] = [[n, r.choice(['pickle', 'deepcopy'])] for n in range(nupd) if r.random() < 0.15]
+    if target[0] in ('keeper', 'keepersim') and target[-1] >= 1 and r.random() < 0.5:
+        case['subclass'] = True
+    return case
 
 
 def front_targets(nobj, i):
@@ -466,6 +521,38 @@ def magnitude_cases(ctx):
     return fixed
 
 
+def copy_and_subclass_cases():
+    """(a) archives holding >= 2 members with different fitness are pickled / deep-copied and then shown
+    individuals that must be inserted in the middle, at the ends, or evict the worst; (b) keepers driven by
+    an Objective subclass whose extra criterion is the only one that improves"""
+    out = []
+    vs = [5.0, 6.0, 5.5, 4.0, 7.0, 5.25]
+    pool = [dict(uid=i + 1, vals=(v,), gclass=0, gen=0) for i, v in enumerate(vs)]
+    pool2 = [dict(uid=i + 1, vals=(v, 10.0 - v), gclass=0, gen=0) for i, v in enumerate(vs)]
+    for kind in ('pickle', 'deepcopy'):
+        for k in (2, 3, 4):
+            for nxt in ([2], [3], [4], [5, 3], [2, 4, 3]):
+                out.append({'target': ['hof', k], 'pool': pool, 'pops': [[0, 1], nxt, [5]], 'copies': [[0, kind]]})
+                out.append({'target': ['keeper', False, k, 1, 0], 'pool': pool, 'pops': [[0], [1], nxt, [3]], 'copies': [[1, kind], [2, kind]]})
+                out.append({'target': ['hofsim', 'uid', k], 'pool': pool, 'pops': [[0, 1], nxt], 'copies': [[0, kind]]})
+            for nxt in ([2], [3, 4], [5, 2]):
+                out.append({'target': ['pareto', 'uid', k], 'pool': pool2, 'pops': [[0, 1], nxt, [4]], 'copies': [[0, kind]]})
+                out.append({'target': ['pareto', 'graph', 0], 'pool': pool2, 'pops': [[0, 1], nxt], 'copies': [[0, kind]]})
+                out.append({'target': ['keeper', True, 1, 1, 1], 'pool': pool2, 'pops': [[0, 1], nxt, [4]], 'copies': [[0, kind], [1, kind]], 'subclass': True})
+                out.append({'target': ['keepersim', 'graph', 1, 1, 1], 'pool': pool2, 'pops': [[0, 1], nxt], 'copies': [[0, kind]]})
+    # the extra criterion of the subclass is the only one that improves / worsens
+    p3 = [dict(uid=i + 1, vals=v, gclass=0, gen=0) for i, v in enumerate([(1.0, 1.0, 5.0), (1.0, 1.0, 4.0), (1.0, 1.0, 2.0), (1.0, 1.0, 6.0), (0.5, 1.0, 2.0)])]
+    p2 = [dict(uid=i + 1, vals=v, gclass=0, gen=0) for i, v in enumerate([(1.0, 5.0), (1.0, 4.0), (1.0, 2.0), (1.0, 6.0), (0.5, 2.0)])]
+    for multi in (False, True):
+        for k in (1, 2):
+            for pops in ([[0], [1], [2], [3], [4]], [[0], [3], [1], [], [2]], [[2], [1], [0]], [[0, 1], [2], [2]]):
+                out.append({'target': ['keeper', multi, k, 1, 2], 'pool': p3, 'pops': pops, 'subclass': True})
+                out.append({'target': ['keeper', multi, k, 2, 1], 'pool': p3, 'pops': pops, 'subclass': True})
+                out.append({'target': ['keeper', multi, k, 1, 1], 'pool': p2, 'pops': pops, 'subclass': True})
+                out.append({'target': ['keeper', multi, k, 1, 1], 'pool': p2, 'pops': pops})
+    return out
+
+
 def zero_size_cases():
     """maxsize = 0 / None: update of an empty hall of fame with a non-empty population raises
     (outside the property's k >= 1; compared with the model only)"""
@@ -513,7 +600,8 @@ def facts(case, obs):
 def case_key(case):
     return (tuple(case['target']), tuple((p['uid'], None if p['vals'] is None else tuple(p['vals']), p['gclass'], p['gen'], tuple(p.get('w') or ()))
                                          for p in case['pool']),
-            tuple(tuple(p) for p in case['pops']), tuple(tuple(x) for x in case.get('fresh_copies', [])))
+            tuple(tuple(p) for p in case['pops']), tuple(tuple(x) for x in case.get('fresh_copies', [])),
+            tuple(tuple(x) for x in case.get('copies', [])), bool(case.get('subclass')))
 
 
 # ----------------------------------------------------------------------------------------
@@ -652,7 +740,10 @@ def run(ctx):
                 'individuals incl. anti-chains that fill the front; wide fronts: 3- and 4-objective fronts of 3..5 mutually non-dominated '
                 'permutation vectors, then newcomers (componentwise minima of 2-3 members) dominating non-adjacent members; magnitudes: alphabets around 1e6 (1..7 units apart), 1e9 (>= 32 units apart), 2^-27..2^-31 and mixed in 3 (thorough 9) '
                 'exhaustive configurations, strictly improving / interleaved / worsening one-individual chains per magnitude for keepers, halls and fronts, '
-                '25 % of the random pools at another scale; invalid fitness: the 3-letter alphabet of the 1-objective hall-of-fame configurations has a 4th letter '
+                '25 % of the random pools at another scale; copies: half of the exhaustive and random sequences continue on a pickle.loads(pickle.dumps(.)) / '
+                'copy.deepcopy(.) of the archive or keeper after an update, plus structured cases (archives with >= 2 different members copied, then inserts in the '
+                'middle / evictions); subclass: every other keeper sequence with a complexity metric uses an Objective subclass that overrides `metrics` to supply '
+                'its last criterion, plus chains in which only that criterion improves; invalid fitness: the 3-letter alphabet of the 1-objective hall-of-fame configurations has a 4th letter '
                 '(null fitness), all 24 orders of {invalid, a, b, c} shown to an empty hall of fame, k 1..4, and 20 % invalid individuals in the random '
                 'hall-of-fame pools; evaluations = updates compared; distinct = distinct sequence; '
                 'non-trivial = >= 2 individuals shown and a tie, a repeat, more individuals than the capacity or >= 3 individuals')
@@ -712,6 +803,8 @@ def run(ctx):
         ('magnitudes (1e6, 1e9, 1e-9)', magnitude_cases(ctx)),
         # failed evaluations: invalid fitness at any position of a population
         ('invalid fitness (hall of fame)', invalid_cases()),
+        # archives continued after pickle / deepcopy; keepers with an Objective subclass
+        ('copied archives and Objective subclasses', copy_and_subclass_cases()),
         # maxsize 0 (model only)
         ('maxsize 0', list(zero_size_cases())),
     ]
